@@ -89,7 +89,8 @@ def run_custom_replay(prop, scratch, test_names):
             s += "\n#[cfg(test)]\n#[path = \"%s\"]\nmod %s;\n" % (os.path.join(VERIF, modfile), modname)
             open(p, "w").write(s)
         for t in tests:
-            cmd = ["cargo", "test", "-p", rp["crate"], "--lib", "--offline", modname + "::" + t, "--", "--nocapture"]
+            cmd = ["cargo", "test", "-p", rp["crate"], "--lib", "--offline"] + (["--features", rp["features"]] if rp.get("features") else []) + \
+                  [modname + "::" + t, "--", "--nocapture"]
             rc, o, secs = run(cmd, cwd=scratch.tree, timeout=3000, env={"CARGO_TARGET_DIR": TEST_TARGET, "RUST_BACKTRACE": "0"})
             if rc is None:
                 out.append(dict(test=t, reproduced=None, output="timeout"))
